@@ -315,6 +315,9 @@ def s_offset_of(E, a, info):
 
 @summ('core::mem::size_of_val', 'core::mem::size_of', 'core::mem::align_of_val', 'core::mem::align_of')
 def s_size(E, a, info):
+    gen = [g.replace(' ', '') for g in (info.get('gen') or [])]
+    if info['key'].endswith('size_of') and gen and 'RcBox<' in gen[0] and gen[0] not in ('RcBox<T>', 'rc::RcBox<T>'):
+        return OffsetTok(('sizeof',), 1, gen[0])
     return Opaque('size')
 
 
@@ -347,6 +350,21 @@ def s_assume(E, a, info):
 @summ('Layout::new', 'Layout::for_value', 'Layout::for_value_raw', 'Layout::pad_to_align', 'Layout::size',
       'Layout::align')
 def s_layout(E, a, info):
+    key = info['key']
+    gen = [g.replace(' ', '') for g in (info.get('gen') or [])]
+    if key == 'Layout::new' and gen and 'RcBox<' in gen[0] and gen[0] not in ('RcBox<T>', 'rc::RcBox<T>'):
+        # the layout of a *different* instantiation of the allocation header: sizes / offsets taken from it are only
+        # valid for that instantiation
+        return Opaque('layoutof:' + gen[0])
+    if a and isinstance(a[0], Ptr):
+        try:
+            a = [E.read(a[0])] + list(a[1:])
+        except Exception:
+            pass
+    if key in ('Layout::size', 'Layout::align') and a and isinstance(a[0], Opaque) and str(a[0].what).startswith('layoutof:'):
+        return OffsetTok(('sizeof',), 1, a[0].what[9:])
+    if key == 'Layout::pad_to_align' and a and isinstance(a[0], Opaque) and str(a[0].what).startswith('layoutof:'):
+        return a[0]
     return Opaque('layout')
 
 
@@ -1123,7 +1141,8 @@ def s_iter_into_iter(E, a, info):
         if isinstance(v, Own) and E.heap[v.obj].kind == 'vec':
             return Agg('SliceIter', None, (v.obj, 0))
     if isinstance(a[0], Agg) and a[0].name in ('MapIter', 'IntoIter', 'ExtractIf', 'MapAd', 'FilterAd', 'Range',
-                                               'KeysIter', 'ValuesIter', 'Drain', 'VecIntoIter', 'SliceIter', 'OptIter', 'FlatMapAd'):
+                                               'KeysIter', 'ValuesIter', 'Drain', 'VecIntoIter', 'SliceIter', 'OptIter', 'FlatMapAd', 'FilterMapAd', 'CopiedAd',
+                                               'TakeWhileAd', 'SkipWhileAd', 'TakeAd', 'SkipAd', 'EnumerateAd', 'ChainAd', 'InspectAd'):
         return a[0]
     raise Unsupported('into_iter of %r' % (a[0],))
 
@@ -1858,7 +1877,51 @@ def s_map_extend(E, a, info):
 @summ('Arguments::from_str', 'Arguments::new', 'Arguments::new_const', 'Arguments::new_v1', 'core::fmt::rt::Argument::new_display',
       'core::fmt::rt::Argument::new_debug', 'core::fmt::rt::Argument::new_pointer', 'Arguments::as_str')
 def s_fmt_args(E, a, info):
+    if a and isinstance(a[0], Ptr):
+        try:
+            v = E.heap[a[0].obj].value
+            if isinstance(v, Opaque) and str(v.what).startswith('str:'):
+                return Opaque('args:' + v.what[4:])
+        except Exception:
+            pass
     return Opaque('fmt')
+
+
+def _sink(E, kind, detail):
+    if E.hooks is None or not hasattr(E.hooks, 'sink_event'):
+        raise Unsupported('write to a Formatter/Hasher without driver')
+    E.hooks.sink_event(E, kind, detail)
+
+
+@summ('Formatter::write_fmt', 'Formatter::<\'_>::write_fmt', 'core::fmt::Write::write_fmt', '<Formatter as Write>::write_fmt')
+def s_formatter_write_fmt(E, a, info):
+    v = a[1]
+    _sink(E, 'str', v.what[5:] if isinstance(v, Opaque) and str(v.what).startswith('args:') else '<fmt>')
+    return Agg('Result', 'Ok', (UNIT,))
+
+
+@summ('Formatter::write_str', 'Formatter::<\'_>::write_str', '<Formatter as Write>::write_str', 'Formatter::pad')
+def s_formatter_write_str(E, a, info):
+    v = a[1]
+    txt = '<str>'
+    if isinstance(v, Ptr):
+        try:
+            o = E.heap[v.obj].value
+            if isinstance(o, Opaque) and str(o.what).startswith('str:'):
+                txt = o.what[4:]
+        except Exception:
+            pass
+    _sink(E, 'str', txt)
+    return Agg('Result', 'Ok', (UNIT,))
+
+
+@summ('<usize as Hash>::hash', '<*const T as Hash>::hash', '<*mut T as Hash>::hash', '<NonNull as Hash>::hash', 'core::ptr::hash', 'std::ptr::hash',
+      'Hasher::write_usize', 'Hasher::write_u64', 'Hasher::write', '<*const RcBox as Hash>::hash', '<*mut RcBox as Hash>::hash', '<u64 as Hash>::hash',
+      '<*const T as Debug>::fmt', '<*mut T as Debug>::fmt', '<NonNull as Debug>::fmt', '<NonNull as Pointer>::fmt', '<usize as Debug>::fmt', '<usize as Display>::fmt',
+      '<*const RcBox as Debug>::fmt', '<*mut RcBox as Debug>::fmt')
+def s_raw_sink_write(E, a, info):
+    _sink(E, 'raw', info['key'])
+    return Agg('Result', 'Ok', (UNIT,)) if 'fmt' in info['key'] else UNIT
 
 
 @summ('Option::get_or_insert_with')
@@ -1937,3 +2000,166 @@ def s_slice_contains(E, a, info):
     key = E.read(a[1])
     E.work += len(items)
     return any(E.key_eq(x, key) for x in items)
+
+
+# ------------------------------------------------------------------ more iterator adapters (so that plausible refactorings stay executable)
+@summ('<* as Iterator>::take_while')
+def s_iter_take_while(E, a, info):
+    return Agg('TakeWhileAd', None, (a[0], a[1], False))
+
+
+@summ('<* as Iterator>::skip_while')
+def s_iter_skip_while(E, a, info):
+    return Agg('SkipWhileAd', None, (a[0], a[1], False))
+
+
+@summ('<* as Iterator>::take')
+def s_iter_take(E, a, info):
+    if is_sym(a[1]):
+        raise Unsupported('take(symbolic)')
+    return Agg('TakeAd', None, (a[0], a[1]))
+
+
+@summ('<* as Iterator>::skip')
+def s_iter_skip(E, a, info):
+    if is_sym(a[1]):
+        raise Unsupported('skip(symbolic)')
+    return Agg('SkipAd', None, (a[0], a[1]))
+
+
+@summ('<* as Iterator>::enumerate')
+def s_iter_enumerate(E, a, info):
+    return Agg('EnumerateAd', None, (a[0], 0))
+
+
+@summ('<* as Iterator>::chain')
+def s_iter_chain(E, a, info):
+    second = s_iter_into_iter(E, [a[1]], dict(key='into_iter', gen=[], frame=None, self_ty=None, callee=''))
+    return Agg('ChainAd', None, (a[0], second, False))
+
+
+@summ('<* as Iterator>::inspect')
+def s_iter_inspect(E, a, info):
+    return Agg('InspectAd', None, (a[0], a[1]))
+
+
+_iter_next_3 = iter_next
+_ADAPTERS_3 = ('TakeWhileAd', 'SkipWhileAd', 'TakeAd', 'SkipAd', 'EnumerateAd', 'ChainAd', 'InspectAd')
+
+
+def iter_next(E, itptr):      # noqa: F811
+    it = E.read(itptr)
+    if not (isinstance(it, Agg) and it.name in _ADAPTERS_3):
+        return _iter_next_3(E, itptr)
+    n = it.name
+
+    def pull(inner):
+        tmp = Ptr(E.new_obj('tmp', inner))
+        r = iter_next(E, tmp)
+        return r, E.read(tmp)
+    if n == 'TakeWhileAd':
+        inner, clos, done = it.fields
+        if done:
+            return NONE
+        r, inner = pull(inner)
+        if r.variant == 'None':
+            E.write(itptr, Agg(n, None, (inner, clos, True)))
+            return NONE
+        item = Ptr(E.new_obj('tmp', r.fields[0]))
+        if E.branch(E.call_closure(clos, [item])):
+            E.write(itptr, Agg(n, None, (inner, clos, False)))
+            return r
+        E.write(itptr, Agg(n, None, (inner, clos, True)))
+        return NONE
+    if n == 'SkipWhileAd':
+        inner, clos, started = it.fields
+        while True:
+            r, inner = pull(inner)
+            if r.variant == 'None':
+                E.write(itptr, Agg(n, None, (inner, clos, True)))
+                return NONE
+            if started:
+                E.write(itptr, Agg(n, None, (inner, clos, True)))
+                return r
+            item = Ptr(E.new_obj('tmp', r.fields[0]))
+            if not E.branch(E.call_closure(clos, [item])):
+                E.write(itptr, Agg(n, None, (inner, clos, True)))
+                return r
+    if n == 'TakeAd':
+        inner, k = it.fields
+        if k == 0:
+            return NONE
+        r, inner = pull(inner)
+        E.write(itptr, Agg(n, None, (inner, k - 1)))
+        return r
+    if n == 'SkipAd':
+        inner, k = it.fields
+        while k > 0:
+            r, inner = pull(inner)
+            k -= 1
+            if r.variant == 'None':
+                E.write(itptr, Agg(n, None, (inner, 0)))
+                return NONE
+        r, inner = pull(inner)
+        E.write(itptr, Agg(n, None, (inner, 0)))
+        return r
+    if n == 'EnumerateAd':
+        inner, k = it.fields
+        r, inner = pull(inner)
+        E.write(itptr, Agg(n, None, (inner, k + 1)))
+        if r.variant == 'None':
+            return NONE
+        return some(tup(k, r.fields[0]))
+    if n == 'ChainAd':
+        first, second, first_done = it.fields
+        if not first_done:
+            r, first = pull(first)
+            if r.variant == 'Some':
+                E.write(itptr, Agg(n, None, (first, second, False)))
+                return r
+        r, second = pull(second)
+        E.write(itptr, Agg(n, None, (first, second, True)))
+        return r
+    if n == 'InspectAd':
+        inner, clos = it.fields
+        r, inner = pull(inner)
+        E.write(itptr, Agg(n, None, (inner, clos)))
+        if r.variant == 'Some':
+            E.call_closure(clos, [Ptr(E.new_obj('tmp', r.fields[0]))])
+        return r
+
+
+SUMMARIES['<Iter as Iterator>::next'] = lambda E, a, info: iter_next(E, a[0])
+SUMMARIES['<* as Iterator>::next'] = lambda E, a, info: iter_next(E, a[0])
+_into_iter_prev = SUMMARIES.get('<* as IntoIterator>::into_iter')
+
+
+@summ('<HashMap as Clone>::clone', '<HashSet as Clone>::clone')
+def s_map_clone(E, a, info):
+    src = E.read(a[0])
+    if not isinstance(src, Own):
+        raise Unsupported('clone of %r' % (src,))
+    so = E.heap[src.obj]
+    if not so.live:
+        raise UB('use-after-free', 'clone of a released table')
+    md = MapData(so.value.is_set)
+    o = E.new_obj('map', md, {'label': ' (table clone)'})
+    md.keys = list(so.value.keys)
+    md.vals = dict(so.value.vals)
+    if so.value.ever_allocated:
+        # hashbrown clones the bucket array of any table that is not the static empty singleton, even with no items left
+        md.ever_allocated = True
+        E.alloc_events += 1
+        E.events.append(('alloc', 'table-buckets', o))
+    return Own(o)
+
+
+@summ('core::ptr::without_provenance', 'core::ptr::without_provenance_mut', 'core::ptr::invalid', 'core::ptr::invalid_mut', 'core::ptr::dangling',
+      'NonNull::without_provenance')
+def s_without_provenance(E, a, info):
+    v = a[0] if a else None
+    if isinstance(v, Agg) and v.fields:          # NonZero<usize>
+        v = v.fields[0]
+    if v == MASK:
+        return DANGLING
+    raise Unsupported('pointer without provenance from %r' % (v,))
